@@ -31,6 +31,11 @@ class _Fault(Exception):
     pass
 
 
+class _FaultB(BaseException):
+    """A cancellation-style fault (KeyboardInterrupt, GeneratorExit, asyncio.CancelledError are not
+    Exceptions either): "whether the call returns or raises" covers these too."""
+
+
 def selftest():
     refcodec.selftest()
     refio.selftest()
@@ -52,11 +57,12 @@ def _faulty(base, ops, tag):
     class Faulty(base):
         _ops = 0
         _fail_at = -1
+        _fault_cls = _Fault
 
         def _tick(self):
             if self._ops == self._fail_at:
                 self._ops += 1
-                raise _Fault()
+                raise self._fault_cls()
             self._ops += 1
 
     for name in ops:
@@ -177,12 +183,13 @@ def check_case(case, res=None):
                             w = FW()
                             w.string_sanitization_mode = mode
                             w._ops, w._fail_at = 0, fail_at
+                            w._fault_cls = _FaultB if fail_at % 2 else _Fault
                             watch.leaks.clear()
                             watch.trace.clear()
                             raised = None
                             try:
                                 cls.serialize(w, inst)
-                            except Exception as e:  # noqa
+                            except (Exception, _FaultB) as e:  # noqa
                                 raised = type(e).__name__
                             return w, raised, w.string_sanitization_mode
                     else:
@@ -201,12 +208,13 @@ def check_case(case, res=None):
                             if mode:
                                 r.chunked_reading_mode = True
                             r._ops, r._fail_at = 0, fail_at
+                            r._fault_cls = _FaultB if fail_at % 2 else _Fault
                             watch.leaks.clear()
                             watch.trace.clear()
                             raised = None
                             try:
                                 cls.deserialize(r)
-                            except Exception as e:  # noqa
+                            except (Exception, _FaultB) as e:  # noqa
                                 raised = type(e).__name__
                             return r, raised, r.chunked_reading_mode
                     io, raised0, final = run(-1)
